@@ -119,6 +119,7 @@ def run(ck):
     samples = []
     cases = []
     dcases = []
+    xcases = []
     fh_cases = []
     # invalid modes are refused before anything happens
     bad_mode_jobs = []
@@ -233,6 +234,9 @@ def run(ck):
                 dterm = D.case_term(job["tree"], res, procfd=warm_config(res["_warm"])["procfd"])
                 if dterm:
                     dcases.append((len(dcases), dterm, desc, res))
+            # tie T3 (both backends): the model program run on the model kernel from the same tree
+            if rng.random() < (0.8 if thorough else 0.5):
+                D.collect_exec(xcases, job["tree"], {"op": op, "rflags": job.get("rflags", 0)}, res, not deny, ps, desc)
             if rng.random() < (0.5 if thorough else 0.3) and res.get("trace"):
                 cfg = warm_config(res["_warm"])
                 prog, enc = M.op_program({"op": op, "rflags": job.get("rflags", 0)}, res, cfg, ps)
@@ -287,6 +291,7 @@ def run(ck):
                               "around": tr[max(0, at - 2):at + 2]}, False)
     if not ck.proof_broken:
         D.evaluate(ck, dcases, stats, "mkdir_all", coq_eval, "c12d")
+        D.evaluate_exec(ck, xcases, stats, coq_eval, "c12x")
     cov = {
         "evaluations": stats["ops"] + stats["races"],
         "distinct_nontrivial": len(nontrivial),
